@@ -165,6 +165,10 @@ pub fn gen_base(rng: &mut Rng, m: Meth, class: ProbClass, entry: Entry) -> Scena
             // y = 1/(t^2 + C): keep t in [0, 3]
             x0 = if backward { rng.uni(1.0, 3.0) } else { rng.uni(0.0, 1.0) };
             len = len.min(if backward { x0 } else { 3.0 - x0 });
+            if backward {
+                // C = 1/y0 - x0^2 must stay positive or the backward solution blows up
+                y0 = vec![1.0 / (x0 * x0 + rng.uni(0.3, 2.0))];
+            }
         }
         Problem::Disc { tstar, .. } => {
             // discontinuity strictly inside the span
@@ -262,7 +266,8 @@ pub fn gen_admissible(
         let mut sc = gen_base(rng, m, class, entry);
         tweak(rng, &mut sc);
         if let Some(p) = pilot(&sc) {
-            if p.success && p.n_ode <= max_cross && p.grid.len() >= 2 {
+            let sane = p.fmax < 1e50 && p.ys.iter().all(|y| y.iter().all(|v| v.is_finite() && v.abs() < 1e50));
+            if p.success && sane && p.n_ode <= max_cross && p.grid.len() >= 2 {
                 return (sc, p);
             }
         }
